@@ -16,18 +16,18 @@ import (
 //	pending   : call 1 creates a pending promise with a reaction, call 2 resolves it and then recurses deeper
 //	            (so a stack overflow after the resolution must drop the queued reaction job)
 var stateful = []shapes.Shape{
-	{"counter", `var CN=0;
+	sh("counter", `var CN=0;
 function cstep(n){ log('c'+n+':'+CN); CN=(CN+1)%5; if (n<2) { try { cstep(n+1) } finally { log('finally-c'+n); CN=(CN+1)%5 } } log('u'+n); CN=(CN+1)%5 }
-function main(){ cstep(0); return CN }`},
-	{"globalgen", `function* ggen(){ for (var i=0;i<2;i++){ try { log('gg'+i); yield i } finally { log('finally-gg'+i) } } log('ggend') }
+function main(){ cstep(0); return CN }`),
+	sh("globalgen", `function* ggen(){ for (var i=0;i<2;i++){ try { log('gg'+i); yield i } finally { log('finally-gg'+i) } } log('ggend') }
 var GG=ggen(), GB=false;
-function main(){ log('pre'); if (GB) { GG=ggen() } GB=true; var r; try { r=GG.next() } finally { GB=false } log('ggr'+r.done); if (r.done) GG=ggen(); return r.value }`},
-	{"pending", `var PR=null;
+function main(){ log('pre'); if (GB) { GG=ggen() } GB=true; var r; try { r=GG.next() } finally { GB=false } log('ggr'+r.done); if (r.done) GG=ggen(); return r.value }`),
+	sh("pending", `var PR=null;
 function pdeep(n,f){ if (n==0) return f(); return pdeep(n-1,f) }
 function main(){ if (!PR) { log('mk'); var r0; new Promise(function(r){ r0=r }).then(function(v){ log('pp'+v) }); PR=r0; log('mk2'); return 'mk' }
  log('rs'); var r=PR; PR=null; r('x'); log('rs2'); pdeep(3, function(){ log('deep') }); log('rs3'); return 'rs' }
 function __reset(){ CN=0; GG=ggen(); GB=false; PR=null }
-function __dump(){ return CN+'|'+GB+'|'+(PR?1:0) }`},
+function __dump(){ return CN+'|'+GB+'|'+(PR?1:0) }`),
 }
 
 func isStateful(shape string) bool {
